@@ -390,6 +390,20 @@ def reach_with_flags(g, start, avoid=(), atom=None, follow_exc=False, facts=None
                     f[tg[0].id] = 'none' if v.value is None else v.value
                 elif isinstance(v, ast.Name) and f.get(v.id) is not None and v.id in f:
                     f[tg[0].id] = f[v.id]
+                else:
+                    # a conditional expression whose tests are decided here and whose chosen arm is a constant
+                    cur = v
+                    for _ in range(6):
+                        if isinstance(cur, ast.IfExp):
+                            tv_ = decide(cur.test, f)
+                            if tv_ is None:
+                                cur = None; break
+                            cur = cur.body if tv_ else cur.orelse
+                        else:
+                            break
+                    if isinstance(cur, ast.Constant):
+                        c_ = cur.value
+                        f[tg[0].id] = 'none' if c_ is None else (c_ if isinstance(c_, bool) else ('obj' if c_ else False))
         elif n.kind == 'stmt' and isinstance(a, (ast.AugAssign, ast.Delete, ast.For, ast.AsyncFor, ast.With, ast.AsyncWith)):
             for x in ast.walk(a):
                 if isinstance(x, ast.Name) and isinstance(x.ctx, (ast.Store, ast.Del)):
